@@ -659,6 +659,45 @@ theorem diskx_get_latest_put_any_instance (cfg : Config) (ops : List Disk.XOp) (
     injection h'
   exact hl k v (DiskCache.get_hit_file hg)
 
+/-- is the operation a put the file system refused? -/
+def isRefused : Disk.XOp → Bool
+  | .putRefused _ _ => true
+  | _ => false
+
+/-- **"the most recent SUCCESSFUL put": a put the file system refuses (key text longer than a file
+name may be) is no put at all.**  For every history, deleting the refused puts from it changes
+neither the cache's state and metrics (hence no later answer, figure or counter) nor the reference
+map nor the "latest put per key" map.  So every theorem above about `List Disk.XOp` histories
+speaks about histories with refused puts too, and two over-long keys that agree on their first
+NAME_MAX bytes cannot be confused with each other: neither is ever stored. -/
+theorem diskx_refused_puts_invisible (cfg : Config) (ops : List Disk.XOp) (x : Disk.XState) (r : Ref) :
+    Disk.xrun cfg x ops = Disk.xrun cfg x (ops.filter (fun o => !isRefused o)) ∧
+    CacheMap.run r (ops.map (Disk.absXOp cfg)) =
+      CacheMap.run r ((ops.filter (fun o => !isRefused o)).map (Disk.absXOp cfg)) ∧
+    CacheMap.runLastPut r (ops.map (Disk.absXOp cfg)) =
+      CacheMap.runLastPut r ((ops.filter (fun o => !isRefused o)).map (Disk.absXOp cfg)) := by
+  induction ops generalizing x r with
+  | nil => exact ⟨rfl, rfl, rfl⟩
+  | cons op t ih =>
+    cases op with
+    | putRefused k v => exact ih x r
+    | cleanup => exact ih (Disk.xstep cfg x .cleanup).1 _
+    | base op =>
+      have h := ih (Disk.xstep cfg x (.base op)).1 (CacheMap.step r (absOp cfg op))
+      have h2 := ih (Disk.xstep cfg x (.base op)).1 (CacheMap.stepLastPut r (absOp cfg op))
+      exact ⟨h.1, h.2.1, h2.2.2⟩
+
+/-- a refused put answers `Err` and the next `get` of any key answers as if it had not been issued -/
+theorem diskx_put_refused_get (cfg : Config) (x : Disk.XState) (k k' : Key) (v : Val) :
+    (Disk.xstep cfg x (.putRefused k v)).2 = .err ∧
+    Disk.xstep cfg (Disk.xstep cfg x (.putRefused k v)).1 (.base (.get k')) = Disk.xstep cfg x (.base (.get k')) :=
+  ⟨rfl, rfl⟩
+
+/-- the filter of `diskx_refused_puts_invisible` on a history that has refused puts in it -/
+example :
+    ([.base (.put 1 [1]), .putRefused 2 [2], .cleanup, .putRefused 3 [], .base (.get 2)] : List Disk.XOp).filter
+      (fun o => !isRefused o) = [.base (.put 1 [1]), .cleanup, .base (.get 2)] := rfl
+
 /-- the hypotheses of `diskx_ttl_and_survival` are met by a history with ticks and a re-creation -/
 example :
     (∀ op ∈ ([.base (.put 2 [2]), .cleanup, .base (.get 1), .base (.remove 2), .cleanup, .base .clear] : List Disk.XOp),
